@@ -272,6 +272,8 @@ def stress_inputs() -> List[Tuple[str, Dict[str, bytes], str]]:
     add("import-directory", 'proto s\nimport "."\n')
     add("import-missing", 'proto s\nimport "nope.bitproto"\n')
     add("import-dev-null", 'proto s\nimport "/dev/null"\n')
+    add("import-nul-path", 'proto s\nimport "l\x00b.bitproto"\n')
+    add("import-very-long-path", 'proto s\nimport "' + "a" * 5000 + '.bitproto"\n')
     out.append(("latin1-bytes", {"s.bitproto": b"proto s\nconst S = \"\xe9\xff\"\n"}, "s.bitproto"))
     out.append(("mutual-import", {"s.bitproto": b'proto s\nimport "t.bitproto"\n', "t.bitproto": b'proto t\nimport "s.bitproto"\n'}, "s.bitproto"))
     return out
